@@ -24,6 +24,7 @@ type Config struct {
 	MaxSteps    int
 	LoopBound   int // unwinding bound for symbolically-decided loop heads
 	MaxConcr    int // max distinct values when concretising a symbolic integer
+	NoSleepSets bool
 	Params      map[string]int
 }
 
@@ -179,6 +180,12 @@ type World struct {
 	timerBudget    int
 	sigSeen        map[string]int
 	timersAnywhere bool
+	clockStep      int
+	fp             *footprint
+	sleep          []sleepEntry
+	stepDec        int
+	stepOpt        int
+	stepBirth      int
 }
 
 type watchEvent struct {
@@ -501,6 +508,9 @@ func (w *World) inputValues(model map[string]uint64) map[string]interface{} {
 // schedule runs the whole program (all goroutines) for this path.
 func (w *World) schedule(g0 *G) {
 	cur := g0
+	por := w.cfg.MaxPreempt == 0 && !w.cfg.NoSleepSets
+	w.fp = &footprint{acc: map[int]uint8{}}
+	w.stepDec, w.stepOpt = -1, -1
 	for !w.ended {
 		if cur != nil && !cur.done && cur.pend == nil {
 			w.cur = cur
@@ -508,6 +518,9 @@ func (w *World) schedule(g0 *G) {
 			if w.ended {
 				return
 			}
+		}
+		if por {
+			w.endStep()
 		}
 		type option struct {
 			g *G
@@ -544,16 +557,67 @@ func (w *World) schedule(g0 *G) {
 		if len(opts) == 0 {
 			return // terminal state
 		}
+		ident := func(o option) int {
+			if o.t != nil {
+				return -1 - o.t.id
+			}
+			return o.g.id
+		}
+		if por && len(w.sleep) > 0 {
+			var awake []option
+			for _, o := range opts {
+				asleep := false
+				for _, se := range w.sleep {
+					if se.ident == ident(o) {
+						asleep = true
+						break
+					}
+				}
+				if !asleep {
+					awake = append(awake, o)
+				}
+			}
+			if len(awake) == 0 {
+				// every enabled step is covered by an interleaving explored earlier
+				w.end = EndAssumeFalse
+				w.endMsg = "sleep-set pruned"
+				w.stats.SleepPruned++
+				w.ended = true
+				return
+			}
+			opts = awake
+		}
 		k := 0
 		if len(opts) > 1 {
 			k = w.ex.choose("sched", len(opts))
 			w.stats.SchedPoints++
+			if por {
+				d := &w.ex.dec[w.ex.pos-1]
+				if d.ident == nil {
+					d.ident = make([]int, len(opts))
+					for i, o := range opts {
+						d.ident[i] = ident(o)
+					}
+					d.fps = make([]*footprint, len(opts))
+					d.done = make([]bool, len(opts))
+					d.birth = w.nextID
+				}
+				// earlier siblings whose subtrees are complete go to sleep
+				for j := 0; j < k; j++ {
+					if d.done[j] && d.fps[j] != nil {
+						w.sleep = append(w.sleep, sleepEntry{ident: d.ident[j], fp: d.fps[j]})
+					}
+				}
+				w.stepDec, w.stepOpt, w.stepBirth = w.ex.pos-1, k, d.birth
+			}
 		}
 		o := opts[k]
 		if curReady && k != 0 && !cur.pend.free {
 			w.preempts++
 		}
 		if o.t != nil {
+			w.touch(o.t.ch.id, true)
+			w.touch(clockID, true)
 			w.fireTimer(o.t)
 			continue
 		}
@@ -564,9 +628,70 @@ func (w *World) schedule(g0 *G) {
 		op := g.pend
 		g.pend = nil
 		w.cur = g
+		if op.quiesce {
+			w.fp.all = true
+		}
 		op.exec()
 		cur = g
 	}
+}
+
+const clockID = -7
+
+type sleepEntry struct {
+	ident int
+	fp    *footprint
+}
+
+// touch records an access of the current step to the heap object with allocation id.
+func (w *World) touch(id int, write bool) {
+	if w.fp == nil {
+		return
+	}
+	if write {
+		w.fp.acc[id] |= 2
+	} else {
+		w.fp.acc[id] |= 1
+	}
+}
+
+// endStep closes the current macro step: its footprint is credited to the scheduling decision that
+// started it (restricted to objects that existed at that decision) and sleeping steps that conflict
+// with it are woken.
+func (w *World) endStep() {
+	f := w.fp
+	if len(f.acc) == 0 && !f.all {
+		return
+	}
+	if w.stepDec >= 0 && w.stepDec < len(w.ex.dec) {
+		d := &w.ex.dec[w.stepDec]
+		if d.fps != nil {
+			t := d.fps[w.stepOpt]
+			if t == nil {
+				t = &footprint{acc: map[int]uint8{}}
+				d.fps[w.stepOpt] = t
+			}
+			if f.all {
+				t.all = true
+			}
+			for id, m := range f.acc {
+				if id < w.stepBirth {
+					t.acc[id] |= m
+				}
+			}
+		}
+	}
+	w.stepDec, w.stepOpt = -1, -1
+	if len(w.sleep) > 0 {
+		keep := w.sleep[:0]
+		for _, se := range w.sleep {
+			if !se.fp.conflicts(f) {
+				keep = append(keep, se)
+			}
+		}
+		w.sleep = keep
+	}
+	w.fp = &footprint{acc: map[int]uint8{}}
 }
 
 // syncPoint registers op as the next step of g. If sched is false and the op is ready it is
